@@ -613,6 +613,9 @@ func (c *Fn) Below(i, x ssa.Value, strict bool, at *ssa.BasicBlock) bool {
 			return true
 		}
 	}
+	if call, ok := i.(*ssa.Call); ok && c.calleeBelow(call, x, strict) {
+		return true
+	}
 	if iv := c.Q.At(i, at); iv.HiOK {
 		lo := c.LenLo(x, at, 0)
 		if (strict && iv.Hi < lo) || (!strict && iv.Hi <= lo) {
@@ -620,6 +623,72 @@ func (c *Fn) Below(i, x ssa.Value, strict bool, at *ssa.BasicBlock) bool {
 		}
 	}
 	return false
+}
+
+// calleeBelow: the index is the result of a helper of the repository, x is a
+// load of a field of one of the helper's arguments that neither the helper
+// nor anything between the call and the load writes, and every return of the
+// helper is proven below (or at most) the length of that same field of its
+// parameter as seen at its entry (h.counts[h.bucketIndex(v)]).
+func (c *Fn) calleeBelow(call *ssa.Call, x ssa.Value, strict bool) bool {
+	g := call.Common().StaticCallee()
+	if g == nil || !c.E.IsRepo(g) || len(g.Blocks) == 0 || g.Signature.Results().Len() != 1 || c.E.depth > 10 {
+		return false
+	}
+	ld, ok := x.(*ssa.UnOp)
+	if !ok || ld.Op != token.MUL {
+		return false
+	}
+	fa, ok := ld.X.(*ssa.FieldAddr)
+	if !ok {
+		return false
+	}
+	key, _ := c.F.LoadKey(ld)
+	if key == "" || c.E.Sx.MayWrite(g, key) || c.F.Version(ld) != c.F.VersionBefore(call, key) {
+		return false
+	}
+	pi := -1
+	for k, a := range call.Common().Args {
+		if c.F.E(a) == c.F.E(fa.X) && k < len(g.Params) {
+			pi = k
+		}
+	}
+	if pi < 0 {
+		return false
+	}
+	gc := c.E.Of(g)
+	var xs []ssa.Value
+	for _, b := range g.Blocks {
+		for _, in := range b.Instrs {
+			u, ok := in.(*ssa.UnOp)
+			if !ok || u.Op != token.MUL {
+				continue
+			}
+			fa2, ok := u.X.(*ssa.FieldAddr)
+			if ok && fa2.Field == fa.Field && fa2.X == ssa.Value(g.Params[pi]) && gc.F.Version(u) == "0" {
+				xs = append(xs, u)
+			}
+		}
+	}
+	if len(xs) == 0 {
+		return false
+	}
+	c.E.depth++
+	defer func() { c.E.depth-- }()
+	rets := ssau.ReturnsOf(g)
+	for _, ret := range rets {
+		ok := false
+		for _, xg := range xs {
+			if gc.Below(ret.Results[0], xg, strict, ret.Block()) {
+				ok = true
+				break
+			}
+		}
+		if !ok {
+			return false
+		}
+	}
+	return len(rets) > 0
 }
 
 // NonNeg proves i >= 0 at block at.
